@@ -1,3 +1,4 @@
 pub mod chain;
 pub mod crash;
+pub mod freeze;
 pub mod pool;
